@@ -276,8 +276,79 @@ pub fn check_frame(data: &[u8]) -> Result<u32, Failure> {
     }
 }
 
+/// The checked per-command constructors (`XPayload::new(&[u8]) -> Result<..>`): whatever they accept
+/// must be a view on which every accessor is callable, with `bytes().len() == len()`.
+/// Returns the number of constructors that accepted the bytes.
+pub fn check_new(data: &[u8]) -> Result<u32, Failure> {
+    use lorawan::certification as ce;
+    use lorawan::maccommands as mc;
+    use lorawan::multicast as mu;
+    let mut accepted = 0u32;
+    macro_rules! via_new {
+        ($( $ty:path => $wrap:path, $visit:path );* $(;)?) => {$(
+            let r = catch(|| match <$ty>::new(data) {
+                Ok(p) => {
+                    let (bl, l) = (p.bytes().len(), p.len());
+                    let c = $wrap(p);
+                    let (name, fields) = $visit(&c);
+                    Some((name, fields.len(), bl, l))
+                }
+                Err(_) => None,
+            });
+            match r {
+                Err(pm) => return Err(Failure::panic(json!({"kind":"new","type":stringify!($ty),"data":hex(data)}), &pm).with_fp(format!("{} [new {}]", panic_fingerprint(&pm), stringify!($ty)))),
+                Ok(Some((name, _, bl, l))) => {
+                    accepted += 1;
+                    if bl != l {
+                        return Err(Failure::new("len-consistent", json!({"kind":"new","type":stringify!($ty),"data":hex(data)}), format!("{name}: new() accepted {} bytes; bytes().len() = {bl} but len() = {l}", data.len())).with_fp(format!("len-consistent/new/{name}")));
+                    }
+                }
+                Ok(None) => {}
+            }
+        )*};
+    }
+    via_new! {
+        mc::LinkCheckAnsPayload => mc::DownlinkMacCommand::LinkCheckAns, visit_down_mac;
+        mc::LinkADRReqPayload => mc::DownlinkMacCommand::LinkADRReq, visit_down_mac;
+        mc::DutyCycleReqPayload => mc::DownlinkMacCommand::DutyCycleReq, visit_down_mac;
+        mc::RXParamSetupReqPayload => mc::DownlinkMacCommand::RXParamSetupReq, visit_down_mac;
+        mc::NewChannelReqPayload => mc::DownlinkMacCommand::NewChannelReq, visit_down_mac;
+        mc::RXTimingSetupReqPayload => mc::DownlinkMacCommand::RXTimingSetupReq, visit_down_mac;
+        mc::TXParamSetupReqPayload => mc::DownlinkMacCommand::TXParamSetupReq, visit_down_mac;
+        mc::DlChannelReqPayload => mc::DownlinkMacCommand::DlChannelReq, visit_down_mac;
+        mc::DeviceTimeAnsPayload => mc::DownlinkMacCommand::DeviceTimeAns, visit_down_mac;
+        mc::LinkADRAnsPayload => mc::UplinkMacCommand::LinkADRAns, visit_up_mac;
+        mc::RXParamSetupAnsPayload => mc::UplinkMacCommand::RXParamSetupAns, visit_up_mac;
+        mc::DevStatusAnsPayload => mc::UplinkMacCommand::DevStatusAns, visit_up_mac;
+        mc::NewChannelAnsPayload => mc::UplinkMacCommand::NewChannelAns, visit_up_mac;
+        mc::DlChannelAnsPayload => mc::UplinkMacCommand::DlChannelAns, visit_up_mac;
+        ce::AdrBitChangeReqPayload => ce::DownlinkDUTCommand::AdrBitChangeReq, visit_down_dut;
+        ce::TxPeriodicityChangeReqPayload => ce::DownlinkDUTCommand::TxPeriodicityChangeReq, visit_down_dut;
+        ce::TxFramesCtrlReqPayload => ce::DownlinkDUTCommand::TxFramesCtrlReq, visit_down_dut;
+        ce::EchoIncPayloadReqPayload => ce::DownlinkDUTCommand::EchoIncPayloadReq, visit_down_dut;
+        ce::EchoIncPayloadAnsPayload => ce::UplinkDUTCommand::EchoIncPayloadAns, visit_up_dut;
+        ce::RxAppCntAnsPayload => ce::UplinkDUTCommand::RxAppCntAns, visit_up_dut;
+        ce::DutVersionsAnsPayload => ce::UplinkDUTCommand::DutVersionsAns, visit_up_dut;
+        mu::McGroupStatusReqPayload => mu::DownlinkRemoteSetup::McGroupStatusReq, visit_down_mc;
+        mu::McGroupSetupReqPayload => mu::DownlinkRemoteSetup::McGroupSetupReq, visit_down_mc;
+        mu::McGroupDeleteReqPayload => mu::DownlinkRemoteSetup::McGroupDeleteReq, visit_down_mc;
+        mu::McClassCSessionReqPayload => mu::DownlinkRemoteSetup::McClassCSessionReq, visit_down_mc;
+        mu::McClassBSessionReqPayload => mu::DownlinkRemoteSetup::McClassBSessionReq, visit_down_mc;
+        mu::PackageVersionAnsPayload => mu::UplinkRemoteSetup::PackageVersionAns, visit_up_mc;
+        mu::McGroupStatusAnsPayload => mu::UplinkRemoteSetup::McGroupStatusAns, visit_up_mc;
+        mu::McGroupSetupAnsPayload => mu::UplinkRemoteSetup::McGroupSetupAns, visit_up_mc;
+        mu::McGroupDeleteAnsPayload => mu::UplinkRemoteSetup::McGroupDeleteAns, visit_up_mc;
+        mu::McClassCSessionAnsPayload => mu::UplinkRemoteSetup::McClassCSessionAns, visit_up_mc;
+        mu::McClassBSessionAnsPayload => mu::UplinkRemoteSetup::McClassBSessionAns, visit_up_mc;
+    }
+    Ok(accepted)
+}
+
 pub fn replay(case: &Value, _kf: &KnownFindings) -> Result<(), Failure> {
     let data = unhex(case["data"].as_str().unwrap_or(""));
+    if case["kind"] == "new" {
+        return check_new(&data).map(|_| ());
+    }
     match case["kind"].as_str() {
         Some("stream") => check_stream(Set::from_name(case["set"].as_str().unwrap_or("")).unwrap_or(Set::DownMac), &data).map(|_| ()),
         Some("frame") => check_frame(&data).map(|_| ()),
@@ -285,6 +356,7 @@ pub fn replay(case: &Value, _kf: &KnownFindings) -> Result<(), Failure> {
             for s in SETS {
                 check_stream(s, &data)?;
             }
+            check_new(&data)?;
             check_frame(&data).map(|_| ())
         }
         _ => Err(Failure::new("bad-replay", case.clone(), "unknown case kind")),
@@ -313,6 +385,16 @@ fn one(st: &mut Stats, data: &[u8], sets: &[Set], frames: bool, distinct: bool) 
     }
     if frames {
         st.eval();
+        match check_new(data) {
+            Ok(n) => {
+                if n > 0 {
+                    nt = true;
+                    st.class("checked-constructor-accepted");
+                }
+            }
+            Err(f) => st.fail(f),
+        }
+        st.eval();
         match check_frame(data) {
             Ok(n) => {
                 if n > 0 {
@@ -337,7 +419,7 @@ fn one(st: &mut Stats, data: &[u8], sets: &[Set], frames: bool, distinct: bool) 
 
 pub fn run(ctx: &mut Ctx) {
     let thorough = ctx.tier == Tier::Thorough;
-    ctx.rule = format!("(a) exhaustive: every byte string of length 0..={} through the 6 MAC-command iterators and all frame parsers/decrypt entry points; (b) exhaustive framing grid: every CID 0..=255 x every payload length 0..=longest+2 x 4 fill patterns x 3 continuations per command set; (c) frame header grid: all 65536 MHDR x FCtrl pairs x lengths {{0..=33, 64, 255}}; (d) structured random streams <= 255 bytes (valid commands + mutations). Oracle: no panic, bounded steps, Ok* Err? None forever, yielded commands are consecutive slices of the input, error names the CID at its offset, bytes().len()==len(), LoRaWAN MAC sets agree with the specification's CID/length table, every accessor called. Non-trivial: some parser returned Ok with >= 1 command/field read; (a)-(c) distinct by construction, (d) by hash", if thorough { 3 } else { 2 });
+    ctx.rule = format!("(a) exhaustive: every byte string of length 0..={} through the 6 MAC-command iterators and all frame parsers/decrypt entry points; (b) exhaustive framing grid: every CID 0..=255 x every payload length 0..=longest+2 x 4 fill patterns x 3 continuations per command set; (c) frame header grid: all 65536 MHDR x FCtrl pairs x lengths {{0..=33, 64, 255}}; (d) structured random streams <= 255 bytes (valid commands + mutations); (e) the checked per-command constructors XPayload::new(bytes) of all 32 non-empty payload types on every string of (a), on every payload of the framing grid and on the inputs of the frame grid, with every accessor of an accepted view called. Oracle: no panic, bounded steps, Ok* Err? None forever, yielded commands are consecutive slices of the input, error names the CID at its offset, bytes().len()==len(), LoRaWAN MAC sets agree with the specification's CID/length table, every accessor called. Non-trivial: some parser returned Ok with >= 1 command/field read; (a)-(c) distinct by construction, (d) by hash", if thorough { 3 } else { 2 });
     ctx.exhaustive = true;
     ctx.assumptions = vec!["the visitor (harness-mac/src/visit.rs) calls every public accessor; exhaustive matches make a new command a compile error".into(), "exhaustive only for the finite sub-spaces (a)-(c); (d) is sampled".into()];
     let seed = ctx.seed;
@@ -374,6 +456,19 @@ pub fn run(ctx: &mut Ctx) {
                             2 => (0..plen).map(|i| i as u8).collect(),
                             _ => rng.bytes(plen),
                         };
+                        // the payload alone through the checked per-command constructors
+                        if cid == 0 {
+                            st.eval();
+                            st.class("constructor-grid");
+                            match check_new(&payload) {
+                                Ok(k) => {
+                                    if k > 0 {
+                                        st.nt_distinct();
+                                    }
+                                }
+                                Err(f) => st.fail(f),
+                            }
+                        }
                         for cont in 0..3 {
                             let mut d = vec![cid];
                             d.extend_from_slice(&payload);
